@@ -62,7 +62,12 @@ TraceList == /\ IsEvent("List")
                 IN /\ obsL' = IF plain THEN ev.obs ELSE obsL
                    /\ Report(IF plain THEN ListMismatches(w, ev.obs) \cup EdgeLawMismatches(ev.obs) ELSE {})
 
-Next == TraceWorld \/ TraceList
+TraceEval == /\ IsEvent("Eval")
+             /\ UNCHANGED <<w, wid, edit, prevW, prevL, obsL>>
+             /\ LET lc(p, q) == ObsConn(w, obsL, p, q)
+                IN Report(EvalMismatches(w, Trace[l].obs, obsL.outcome = "ok", lc))
+
+Next == TraceWorld \/ TraceList \/ TraceEval
 
 Spec == Init /\ [][Next]_vars
 
